@@ -58,6 +58,19 @@ def run_case(case):
         if integ == 'whfast512' and what == 'pair':
             what = 'observer'        # WHFast512 has no safe mode to compare with
         n = r.choice([1, 2, 3, 7, 20, 100, 300])
+        if integ == 'whfast' and what == 'pair' and spec['system'].get('kind') == 'planets' and r.random() < 0.25:
+            # corrector round trips in safe mode: every step is wrapped in corrector and inverse corrector, so an inverse that does not invert
+            # leaves its residue n times (unsafe mode: once).  Heavy planet + many steps makes that residue stand out of the rounding envelope.
+            spec['opts']['ri_whfast.corrector2'] = 1
+            spec['opts'].setdefault('ri_whfast.corrector', r.choice([0, 3, 7, 17]))
+            if spec['opts'].get('ri_whfast.coordinates', 'jacobi') not in ('jacobi', 'barycentric'):
+                spec['opts']['ri_whfast.coordinates'] = r.choice(['jacobi', 'barycentric'])      # the only ones correctors are defined for
+            mmax = max(p_['m'] for p_ in spec['system']['planets'])
+            if mmax > 0:
+                for p_ in spec['system']['planets']:
+                    p_['m'] *= 2e-3 / mmax
+            n = 300
+            counters['pair_runs_second_corrector_heavy_planet'] = counters.get('pair_runs_second_corrector_heavy_planet', 0) + 1
         if what == 'pair':
             counters['pair_runs'] += 1
             sA = gen.build_sim(spec)
@@ -82,18 +95,13 @@ def run_case(case):
             sc = scale_of(a)
             if integ != 'eos':
                 corrected = bool(spec['opts'].get('ri_whfast.corrector') or spec['opts'].get('ri_whfast.corrector2'))
-                # measured on 3000 pairs: <= 50 eps (n+2) scale without correctors, <= 6000 with (the correctors are long
-                # compositions with large coefficients whose rounding the safe mode pays at every step). An operator applied
+                # measured on 4500 pairs: <= 15 eps (n+2) scale without correctors, <= 400 eps (n+20) scale with (the correctors are long
+                # compositions with large coefficients whose rounding the safe mode pays at every step; before the second corrector's
+                # inverse was repaired - fix 2692c7f - the maximum was 6000 and grew with the planet mass). An operator applied
                 # twice or skipped is an error of order (mass ratio) dt^2 ~ 1e-7 or more.
-                K = 1e5 if corrected else 2048
+                K = 2e4 if corrected else 2048
                 # the correctors' rounding does not grow with n in unsafe mode (applied once at each end) but is not small: n + 20
-                if gt(d, K * EPS * (n + (20 if corrected else 2)) * sc) and integ == 'whfast' and spec['opts'].get('ri_whfast.corrector2') and not gt(d, 3e-10 * n * sc):
-                    # known finding: the inverse of the SECOND corrector is U(-a,-b) U(a,-b), which is not the exact inverse of U(a,b) U(-a,b) (it
-                    # agrees to the order of the corrector); safe mode applies corrector and "inverse" around every step and drifts away from unsafe
-                    # mode by up to 5e-11 of the scale per step (measured; heavy planet, coarse step).  Anything larger than 3e-10 n scale - a
-                    # corrector applied twice or skipped moves a heavy planet by ~1e-6 - is not covered by that key.
-                    add('sync:safe-vs-unsafe-differ:whfast:second-corrector-approximate-inverse', '%s opts %r n=%d: max|diff|=%.3e (scale %.3e, %.3e of the scale per step)' % (integ, spec['opts'], n, d, sc, d / (n * sc)))
-                elif gt(d, K * EPS * (n + (20 if corrected else 2)) * sc):
+                if gt(d, K * EPS * (n + (20 if corrected else 2)) * sc):
                     add('sync:safe-vs-unsafe-differ:%s%s' % (integ, ':then-short-exact-integrate' if short else ''), '%s opts %r n=%d: max|diff|=%.3e (scale %.3e, %.1f eps n scale)' % (integ, spec['opts'], n, d, sc, d / (EPS * n * sc)))
             else:
                 counters['eos_pairs'] += 1
